@@ -13,6 +13,8 @@ from collections import OrderedDict
 import numpy as np
 from synapgrad.nn.modules import Module, Parameter, Sequential
 from synapgrad.tensor import Tensor
+import sys as _sys
+TM = _sys.modules["synapgrad.tensor"]
 
 SIZES = (1, 2, 3, 5)
 OD_KEYS = ("z", "k", "m")           # deliberately not in sorted order
@@ -194,6 +196,7 @@ class T(Module):
 class World:
     def __init__(self):
         self.M, self.P, self.outside = {}, {}, {}
+        self.ambient_no_grad = False
 
     def mod(self, j):
         if j not in self.M:
@@ -231,6 +234,9 @@ class World:
             s = Sequential(*cs) if kind == "pos" else Sequential(OrderedDict((OD_KEYS[i], c) for i, c in enumerate(cs)))
             object.__setattr__(s, "slot", j)
             self.M[j] = s
+        elif self.ambient_no_grad:
+            with TM.no_grad():          # the ambient gradient mode is none of these methods' business (unfreeze inside no_grad() still unfreezes)
+                getattr(self.mod(op[1]), op[2])()
         else:
             getattr(self.mod(op[1]), op[2])()
 
@@ -286,6 +292,8 @@ def check(prog, g=None, g0=None):
         g0 = ghost_of(prog[:-1])
         g = g0.copy().apply(prog[-1])
     w = World()
+    # programs written with explicit register_* calls run their train/eval/freeze/unfreeze/zero_grad calls inside no_grad(), the others in the default mode
+    w.ambient_no_grad = any(op[0] == "set" and op[4] == "register" for op in prog)
     fails, down = [], []
     n = 0
     pre_ok = True
@@ -524,6 +532,9 @@ def source(prog):
         L += ["src%d = Tensor(np.ones(%d, dtype=np.float32), requires_grad=True)" % (k, SIZES[k]), "P%d, twin%d = Parameter(src%d), Parameter(src%d)   # src and twin stay outside every module" % (k, k, k, k),
               "for t in (P%d, src%d, twin%d): t._grad = np.ones(%d, dtype=np.float32)" % (k, k, k, SIZES[k])]
     built = []
+    amb = any(op[0] == "set" and op[4] == "register" for op in prog)
+    if amb:
+        L[0] = "import numpy as np, synapgrad"
     for oi, op in enumerate(prog):
         if oi > 0:
             L += ["M%d(1)    # intermediate observation (forward must depend on the current registry only)" % j for j in built]
@@ -541,6 +552,8 @@ def source(prog):
                 L.append("M%d = Sequential(%s)" % (op[2], ", ".join("M%d" % c for c in op[3])))
             else:
                 L.append("M%d = Sequential(OrderedDict([%s]))" % (op[2], ", ".join("(%r, M%d)" % (OD_KEYS[i], c) for i, c in enumerate(op[3]))))
+        elif amb:
+            L.append("with synapgrad.no_grad(): M%d.%s()" % (op[1], op[2]))
         else:
             L.append("M%d.%s()" % (op[1], op[2]))
     return "\n".join(L)
